@@ -178,7 +178,7 @@ def setup_case(draw, method):
             "layout": draw(st.sampled_from(["C", "C", "F", "colslice", "rowstep", "neg"])), "conj": draw(st.booleans()), "reuse": draw(st.integers(0, 3)) == 0,
             "ordextra": draw(st.sampled_from([0, 0, 0, 1, 2, 4])),  # the user asks for more orders than 2m
             "mpe_rtol": draw(st.sampled_from([1e-3, 1e-3, 0.02, 0.12])), "mpe_off": draw(st.floats(-1, 1)),  # tolerance of the extraction and how far (in units of it) the requests are off
-            "decoy": draw(st.booleans())}  # another algorithm with much stricter criteria is created (never added) after the judged one
+            "decoy": draw(st.booleans()), "selform": draw(st.sampled_from(["list", "list", "tuple", "array", "npfloats"]))}  # another algorithm with much stricter criteria is created (never added) after the judged one
 
 
 def _kappa_data(Y, refs, br, m):
@@ -280,7 +280,11 @@ def judge_setup(case):
     gap = np.array([min([abs(f - g) / f for g in fs_sorted if g != f] or [1.0]) for f in S.fn])
     off = float(case.get("mpe_off", 0.0)) * np.minimum(0.6 * rtol, 0.3 * gap)
     j.tag(f"mpe-rtol={rtol:g}")
-    r3 = sut(ss.mpe, "alg", sel_freq=[float(f * (1 + o)) for f, o in zip(S.fn, off)], order=n2, rtol=rtol)
+    sel = [float(f * (1 + o)) for f, o in zip(S.fn, off)]
+    form = case.get("selform", "list")  # the same frequencies as a list, a tuple, an array or a list of numpy scalars
+    sel = {"list": sel, "tuple": tuple(sel), "array": np.array(sel), "npfloats": [np.float64(v) for v in sel]}[form]
+    j.tag("sel_freq:" + form)
+    r3 = sut(ss.mpe, "alg", sel_freq=sel, order=n2, rtol=rtol)
     if j.check(not raised(r3), "mpe-raises", lambda: f"{r3!r}"):
         fn, xi, phi = np.asarray(res.Fn), np.asarray(res.Xi), np.asarray(res.Phi)
         if j.check(fn.shape == (m,) and xi.shape == (m,) and phi.shape == (l, m), "mpe-shape", lambda: f"Fn{fn.shape} Xi{xi.shape} Phi{phi.shape} for m={m}, l={l}"):
